@@ -11,5 +11,5 @@ PROP = dict(
     partial="childrenMu locking is not modelled (a seed is owned by one goroutine at a time except inside archive(), see C01); "
             "re-parenting an existing child through AddChild is not modelled (the stages only add new items).",
     assumptions=["node ids are unique (UUIDs); the model addresses nodes by id where Go uses pointers - the driver checks the pointer side after every op"],
-    level_text="Theorems by structural induction over item trees and induction over operation sequences; the model is replayed against the real models.Item API after every operation (pipeline-shaped and arbitrary sequences, plus every tree of <= 3 nodes (quick) / <= 4 nodes (thorough) with every status assignment).",
+    level_text="Theorems by structural induction over item trees and induction over operation sequences; the model is replayed against the real models.Item API after every operation (pipeline-shaped and arbitrary sequences, plus every tree of <= 3 nodes (quick) / <= 4 nodes (thorough) with every status assignment). 'Exactly one node per URL after de-duplication' is proved for every tree with unique ids (C11_dedupe_unique_all) and monitored at every DedupeItems call whose input tree has unique ids, pipeline-shaped or not; 'no URL lost' holds and is monitored in the pipeline state only.",
 )
